@@ -20,13 +20,16 @@ n = len(r)
 txt = open(f"{V}/tools/design_asbuilt.md").read()
 txt += f"""### 10.8 Seeded changes: which check catches which change
 
-{n} breaking changes were produced in four rounds by fresh sub-agents that saw only the text of one
+{n} breaking changes were produced in five rounds by fresh sub-agents that saw only the text of one
 property and a scratch worktree under /tmp (round 1: two per property, ids `Cnn-1`, `Cnn-2`;
 round 2: one more per property, `Cnn-3`, asked to look away from the most obvious place; round 3:
 `Cnn-4`, given one-line descriptions of the earlier changes to that property and asked for something
 different in kind, in a helper nobody had touched; round 4: `Cnn-5`, given the descriptions of all
 four earlier changes and asked for a change that needs a rare input - a particular byte pattern, a
-second module, a process setting, a file already at the output path - to show). Each
+second module, a process setting, a file already at the output path - to show; round 5: `Cnn-6`,
+additionally pointed at kinds of slip not yet tried: state kept between calls, dependence on the
+process environment, iteration order or identity, byte-length boundaries, broader/narrower `except`,
+early exits from loops, truthiness of optional values). Each
 was confirmed by me (applies to HEAD, suite still 147 passed, its own `demo.py` exits 0 without
 and 1 with the change — `seeded/<id>/confirm.txt`) and is kept as
 `seeded/<id>/{{patch.diff, demo.py, notes.md, meta.json}}`. `tools/seed_matrix.py` applies each to
@@ -117,7 +120,33 @@ What the seeded changes taught, and what was added to the checks because of them
   non-ASCII comment / CR-only forms, logged digest against the file's bytes; C20-5 (`lru_cache` on
   `load_skr`) -> the previous SKR file replaced between uploads, with expectations that come from
   how the documents were built instead of from a second call of the same loader.
-* Everything else in the four rounds was caught by the check as it stood.
+* Round 5: on the first sweep the property's own check reported 8 of the 20 with a failing input
+  (C02, C04, C11, C12, C13, C17, C18, C19; two of the changes repeated round-4 ideas), one only
+  through the bridge (C16) and 11 not at all - though 9 of those 11 were reported with a failing
+  input by a neighbouring property's check run in the same sweep. All twenty are now reported by
+  their own property's check with a failing input. What was added:
+  C01-6 (= C02-5, writer drops a key with a colliding tag) -> C01's scenarios also go through the
+  writer and include colliding tags; C03-6 (`check_last_skr_key_present` guarded by the flag of the
+  neighbouring rule) -> previous SKR signed by another key under our label, under every subset of
+  the other chain flags; C05-6 (cycle rule skipped for fewer than two bundles) -> one-bundle
+  requests under cycle bounds that exclude zero; C06-6 (domain membership as substring of the joined
+  list) -> lists with longer names and request domains that are parts, parents and joins of them;
+  C07-6 (= C05-5) -> honest and tampered bundles under other process time zones and offset-less
+  timestamps, now with an expectation that comes from how the document was built (honest = accept)
+  next to the rule transcription (`reqcases.judge(built=...)`; a loader refusal of an honest
+  document is reported too); C08-6 (decoded public keys cached by identifier, process-wide) -> a
+  previous SKR whose first bundle publishes a foreign key under an identifier this process has
+  never seen and whose later bundles publish ours but are signed by the foreign key, then the honest
+  file; C09-6/C11-6 (= C20-5, `lru_cache` on `load_skr`) -> C09's ceremonies now use one fixed
+  directory, so that the previous SKR is "whatever is at that path now"; C10-6 (response validation
+  stops after the first bundle) -> ceremonies whose previous-SKR file is the emitted one with one
+  signature octet changed (first / middle / last signature); C14-6 (`lstrip(b"\x04")`) -> token
+  points whose X coordinate begins with one to three 0x04 octets, bare and wrapped; C15-6
+  (environment restored by truthiness) -> empty, blank and "0" values in the base environment;
+  C16-6 (`'.'.join(err['loc'])` with integer locations) -> the exit status for errors located in
+  list elements, numbered schema slots and nested key entries; C20-6 (`dt_now` as default argument)
+  -> uploads for a later year judged with the clock set to that year, expectations by construction.
+* Everything else in the five rounds was caught by the check as it stood.
 
 ### 10.9 Running it
 
